@@ -170,9 +170,46 @@ RULE = ("every distinct TLC state with a verified exact spectral decomposition w
         "n+3) for declared self-adjoint trees, PowerIteration for a real dominant eigenvalue")
 
 
+def rules_summary(r):
+    """Mechanism model of the eigenvalue / matrix-function rules and of the algorithm selection of Auto() for every
+    entry point (spec/UnaryEigRules.tla, AutoChoice.tla, MC_*): TLC proves the rules are identities between spectral
+    decompositions under the guards the code uses (UnaryRuleSound, PowIntSound, PowKronDomain, ExpKronSumSound,
+    EigRuleSound) and that the selection is total, unique and within the size / PSD contract (AutoTotal, AutoUnique,
+    AutoContract*, AutoOptsForward); 22 mutant negative controls.  Rules recorded on the real resolver, the algorithm
+    each Auto rule hands over to (with the options it passes) and result values are compared with the model: a
+    difference is MODEL-DRIFT (reported, not a violation)."""
+    from .. import tla
+    if r.get("model_error"):
+        raise tla.TLCError("MC_UnaryEigRules / MC_AutoChoice: " + str(r["model_error"])[:3000])
+    if r.get("negative_controls_failed"):
+        raise tla.TLCError(f"rulesfam2: {r['negative_controls_failed']} negative control(s) were not rejected")
+    drift = r.get("drift") or []
+    cov = {"rules2_model_states": r.get("distinct"), "rules2_calls_compared_with_real_code": r.get("compared"),
+           "rules2_values_compared": r.get("values_compared"), "rules2_drift": r.get("drift_count", len(drift)),
+           "rules2_negative_controls_rejected": r.get("negative_controls"),
+           "rules2_auto_handover_observed": r.get("auto_handover_observed"),
+           "rules2_drift_examples": [str(d)[:300] for d in drift[:5]]}
+    extra = []
+    if drift:
+        extra.append(f"MODEL-DRIFT: eig / unary rules or the Auto selection differ from UnaryEigRules.tla / AutoChoice.tla "
+                     f"in {r.get('drift_count', len(drift))} call(s), e.g. {str(drift[0])[:300]}")
+    return cov, extra
+
+
 def run(tier):
     import json
     t0 = time.time()
+    sub = common.SubprocPhase("rulesfam2").start(tier)
+    try:
+        return _run(tier, t0, sub)
+    except BaseException:
+        if sub.proc.poll() is None:
+            sub.proc.kill()
+        raise
+
+
+def _run(tier, t0, sub):
+    import json
     cases, stats = opsfam.run_model(PROP, spectralfam.plan(tier, common.seed()))
     cases = spectralfam.spectral_cases(cases)
     total = len(cases)
@@ -192,9 +229,12 @@ def run(tier):
            "samples": opsfam.sample_cases(cases, 6), "exhaustive": False, "tlc_runs": stats["tlc_runs"],
            "spectral_trees_emitted": total, "tlc_invariants": ["SpecInv", "ShapeConsistent"],
            "checker_cmd": "tlc MC_Ops.tla with Acts including spectral (Spectral.tla)"}
+    rcov, extra = rules_summary(sub.finish())
+    cov.update(rcov)
+    cov["states"] += rcov["rules2_model_states"] or 0
     return common.finish(PROP, tier, t0, cov, viol, opsfam.ASSUMPTIONS + [
         "eigenvalues are compared with TLC's exact spectrum to 1e-8 (dense), 1e-5 (Krylov / power iteration), 5e-2 "
-        "(single precision) relative to the spectral radius"])
+        "(single precision) relative to the spectral radius"], extra_print=extra)
 
 
 def replay(path):
